@@ -127,6 +127,8 @@ def run(ctx):
         ctx.model("ImagerGeometry (constructor as repaired) %s" % cst, r, constants=cst)
     r = tlc.run_tlc("ImagerGeometry", workers=4, constants=dict(MaxE=4, MaxPs=3, MaxLen=2, CtorTruncates=True), invariants=["SquarePixels"], heap="4g")
     ctx.model("ImagerGeometry with the truncating constructor (pre-repair design; expected to fail SquarePixels)", r, expect_violation="SquarePixels")
+    from .. import tlaps
+    tlaps.attach(ctx, "ImagerSetter", "for ALL integers: a range setter (ceil to whole pixels, symmetric padding) satisfies resolution*ps = width, covers the request, excess < one pixel")
     n = 700 if quick else 8000
     hists = [gen_history(ctx.rng, 4 if i % 3 else 10) for i in range(n)]
     embs = [TICKS[i % len(TICKS)] for i in range(n)]
